@@ -104,7 +104,9 @@ def impl(case) -> str:
 
 def oracle(case, obs):
     if case["kind"] == "parse":
-        return _parse_oracle(case, obs)
+        return None
+    if case["kind"] == "ctx":
+        return _ctx_oracle(case, obs)
     obs = obs.split("|")[0]
     if case["kind"] == "challenge":
         op = bytes.fromhex(obs)
@@ -140,13 +142,24 @@ def oracle(case, obs):
     return None
 
 
-def _parse_oracle(case, obs):
-    """independent reading of key=value lists: for well-formed input (built from known pairs) the pairs must come back"""
+def _ctx_oracle(case, obs):
+    """an honest response followed by extra key=value text: for well-formed extra text the login must still succeed and
+    the credentials object must carry exactly those extra fields (later duplicates win)"""
     if "pairs" not in case:
         return None
-    want = ";".join(k + "=" + v for k, v in case["pairs"])
-    if obs != want:
-        return Failure(case, f"well-formed header parsed as {obs}, built from {want}", "parse-roundtrip")
+    flags, _, dump = obs.partition("|")
+    if flags != case["expect"]:
+        return Failure(case, f"honest response followed by well-formed extra fields: outcome {obs[:40]}, expected {case['expect']}",
+                       "ctx-outcome")
+    got = dict(x.split("=") for x in dump.split(";") if x)
+    want = {}
+    for k, v in case["pairs"]:
+        want[k] = v
+    bad = {k: (got.get(k), v) for k, v in want.items() if got.get(k) != v}
+    if bad:
+        k, (g, w) = next(iter(bad.items()))
+        return Failure(case, f"extra field {bytes.fromhex(k)!r} parsed as {None if g is None else bytes.fromhex(g)!r}, "
+                             f"written as {bytes.fromhex(w)!r}", "field-parse")
     return None
 
 
@@ -367,36 +380,55 @@ def _raw(rng, hashk):
 def gen(rng, tier):
     n = 1 if tier == "quick" else 20
     cases = []
-    for _ in range(60 * n):
+    for _ in range(40 * n):
         for kind in KINDS:
             cases.append(_one(rng, "toy", kind))
     for _ in range(25 * n):
         for kind in KINDS:
             cases.append(_one(rng, "real", kind))
-    for _ in range(1500 * n):
+    for _ in range(1000 * n):
         cases.append(_raw(rng, rng.choice(["toy", "real"])))
-    ws = [b"", b"", b" ", b"\t", b"  ", b"\r\n ", b"\n"]
-    for _ in range(300 * n):
+    ws = [b"", b"", b" ", b"\t", b"  ", b"\r\n ", b"\n", b"\x0b"]
+
+    def in_context(tail, pairs=None):
+        """an honest response followed by `tail`: decode() succeeds, so the parsed fields are observable (creds.fields)"""
+        base = _one(rng, "toy", "honest")
+        c = {"kind": "ctx", "hash": "toy", "priv": base["priv"], "realm": base["realm"], "now": base["now"],
+             "method": base["method"], "host": base["host"], "pws": base["pws"], "expect": base["expect"],
+             "raw": _h(_ser(base["fields"]) + b"," + tail)}
+        if pairs is not None:
+            c["pairs"] = pairs
+        return c
+
+    for _ in range(200 * n):
         # well-formed key=value lists in every spelling the expression accepts; the pairs must come back
         pairs, raw = [], b""
-        for j in range(rng.randrange(0, 6)):
+        for j in range(rng.randrange(1, 6)):
             k = bytes(rng.choice(b"abcXYZ09_-.") for _ in range(rng.randrange(1, 6)))
             if rng.random() < 0.6:
                 v = bytes(rng.choice(b"abc 09,=/+-:;") for _ in range(rng.randrange(0, 8)))
+                want = v
+                if len(v) >= 2 and rng.random() < 0.3:
+                    i = rng.randrange(1, len(v))
+                    if v[i - 1:i] != b" " and v[i:i + 1] != b" ":
+                        v, want = v[:i] + rng.choice([b"\r\n", b"\n", b"\r"]) + v[i:], v[:i] + b" " + v[i:]   # folded line
                 piece = k + b'="' + v + b'"'
-                v = v.strip()
+                v = want.strip()
             else:
-                v = bytes(rng.choice(b"abc09=/+-:;\"") for _ in range(rng.randrange(1, 8)))
+                v = bytes(rng.choice(b"abc09=/+-:;\" ") for _ in range(rng.randrange(1, 8))).strip() or b"0"
                 if v.startswith(b'"'):
                     v = b"x" + v        # a bare value must not start with a quote (it would open a quoted string)
                 piece = k + b"=" + v
-            raw += (b"," if j else b"") + rng.choice(ws) + piece
+            raw += (b"," if j else b"") + rng.choice(ws) + piece      # no padding between a closing quote and the comma:
+            #   the expression would make the comma part of the next key
             pairs.append([k.hex(), v.hex()])
-        cases.append({"kind": "parse", "hash": "toy", "priv": "00", "realm": "00", "now": 0, "raw": _h(raw), "pairs": pairs})
-    for _ in range(500 * n):
+        cases.append(in_context(raw, pairs))
+    for _ in range(300 * n):
         # arbitrary bytes over the alphabet the expression cares about
         raw = bytes(rng.choice(b'ab= ,"\t\r\n\x0b\xff;') for _ in range(rng.randrange(0, 24)))
-        cases.append({"kind": "parse", "hash": "toy", "priv": "00", "realm": "00", "now": 0, "raw": _h(raw)})
+        cases.append(in_context(raw))
+        if rng.random() < 0.3:
+            cases.append({"kind": "parse", "hash": "toy", "priv": "00", "realm": "00", "now": 0, "raw": _h(raw)})
     for _ in range(100 * n):
         ip = rng.choice([b"10.0.0.1", b"", None, b"fe80::1"])
         cases.append({"kind": "challenge", "hash": rng.choice(["toy", "real"]), "priv": _h(bytes(rng.randrange(256) for _ in range(12))),
@@ -486,16 +518,16 @@ SPEC = Spec(
     rule="20 kinds of challenge/response histories (honest, later clock incl. lifetime +-1, other client address, altered "
          "nonce, altered MAC, altered / neutral / undecodable base64, opaques re-signed with the private key for other "
          "time/address/nonce and odd time fields, dropped / empty / duplicated fields, unknown algorithm, auth-int, md5-sess "
-         "without cnonce, response for another password, one-byte change in each response field), 60 each with the "
-         "transparent hash (compared with the model) and 25 each with real MD5/SHA-1 (oracle only), 1500 random byte-level "
-         "mutations (flip/delete/insert, 1-3 bytes) of a raw honest response, 300 well-formed key=value lists in every spelling "
-         "(quoted/bare, folded lines, padding) that must parse back to their pairs, 500 random strings over the bytes the "
+         "without cnonce, response for another password, one-byte change in each response field), 40 each with the "
+         "transparent hash (compared with the model) and 25 each with real MD5/SHA-1 (oracle only), 1000 random byte-level "
+         "mutations (flip/delete/insert, 1-3 bytes) of a raw honest response, 200 well-formed key=value lists (appended to an honest response so that decode() exposes the parsed fields) in every spelling "
+         "(quoted/bare, folded lines, padding) that must parse back to their pairs, 300 random strings over the bytes the "
          "expression distinguishes, 100 issued challenges; "
          "thorough = 20x; non-trivial = anything but an unmodified honest response that was denied; distinct by (case, observation)",
     trusted=["hand-written model coq/C48/Model.v of the acceptance logic on parsed fields (tied by this correspondence run)",
              "the regular expression of decode() is transcribed by hand into Model.match_at / findall (leftmost match, greedy "
              "runs, quoted alternative first, bare fallback when the closing quote is missing) and compared with Python's re on "
-             "every run: 800 parser-only inputs, 1 500 raw mutations",
+             "every run: 500 parser inputs in the context of an honest response, 1 000 raw mutations",
              "MD5/SHA-1: Section variable HX with the hypothesis that it is injective (ideal hash); base64: Section variables "
              "with round-trip hypothesis, Run.v's executable b64encode / a2b_base64 are compared with CPython on every run",
              "for model comparison md5/sha1 are replaced by the injective map digest(x) = tag+x in both model and code"],
